@@ -86,6 +86,21 @@ def cases(ctx):
         out.append(Case(f"builtin len {wire.s(t)}", ("len",)))
         out.append(Case(f"builtin tolower {wire.s(t)}", ("case",)))
         out.append(Case(f"builtin toupper {wire.s(t)}", ("case",)))
+    # join: elements equal to the delimiter, empty elements, delimiters of several characters, at the ends and in the middle
+    for _ in range(ctx.scale(200, 8000)):
+        d = rng.choice([",", "-", "ab", ", ", "", "é", "--"])
+        atoms = [d, d, "", "a", "b", d[:1], d + d, "x" + d, d + "x"]
+        items = [rng.choice(atoms) for _ in range(rng.randint(0, 5))]
+        if rng.random() < 0.6:
+            items.append(d)                      # the last element IS the delimiter
+        elems = [wire.c(t) if len(t) == 1 and rng.random() < 0.5 else wire.s(t) for t in items]
+        dl = wire.c(d) if len(d) == 1 and rng.random() < 0.5 else wire.s(d)
+        out.append(Case(f"builtin join {wire.a(*elems)} {dl}", ("join-delims",)))
+    # get: every index around the ends of the array, negative ones included ("no element at the index": null)
+    for n in (0, 1, 3, 8):
+        arr = wire.a(*[wire.i(10 * (k + 1)) for k in range(n)])
+        for idx in list(range(-n - 2, n + 2)) + [wire.I64_MIN, wire.I64_MAX, -(2 ** 32), 2 ** 32, -(2 ** 63) + 1]:
+            out.append(Case(f"builtin get {arr} {wire.i(idx)}", ("get-index",)))
     # invalid UTF-8 of every rejection class
     bad = [[0x80], [0xc0, 0x80], [0xc2], [0xe0, 0x80, 0x80], [0xed, 0xa0, 0x80], [0xf0, 0x80, 0x80, 0x80], [0xf4, 0x90, 0x80, 0x80], [0xf5, 0x80, 0x80, 0x80], [0xff], [0x61, 0xe2, 0x82], [0xe2, 0x28, 0xa1]]
     for bsq in bad:
